@@ -111,6 +111,8 @@ func alphabet(n, t int, full bool, scope string) []Ev {
 			add("master-otherkey", dkgConfirmEv[3], reqMaster(i, "masterkey-B", "pubpoly-A", tNorm))
 			add("master-otherpoly", dkgConfirmEv[3], reqMaster(i, "masterkey-A", "pubpoly-B", tNorm))
 			add("master-empty", dkgConfirmEv[3], reqMaster(i, "", "pubpoly-A", tNorm))
+			// an announcement that carries the key but NO public polynomial (after others that carried one)
+			add("master-nopoly", dkgConfirmEv[3], reqMaster(i, "masterkey-A", "", tNorm))
 			add("master-late", dkgConfirmEv[3], reqMaster(i, "masterkey-A", "pubpoly-A", tLate))
 		}
 		for k := 0; k < 4; k++ {
